@@ -18,7 +18,7 @@ package kernel
 // again (unless the store returned an error); a transaction in `owned` is NOT queued by this call; both CoSi maps end as new, empty maps.
 //@ func (chain *Chain) resetCosiStateForNewRound
 //@   property C24
-//@   requires ChainOK(chain) && AggsShape(chain)
+//@   requires CosiChainOK(chain) && AggsShape(chain)
 //@   modifies chain.CosiAggregators, chain.CosiVerifiers, ghost bytes_cachequeue, ghost store_errors
 //@   ensures [requeued] StoreErrors(chain.node.persistStore) == old(StoreErrors(chain.node.persistStore)) ==>
 //@       (forall k crypto.Hash :: {old(has(chain.CosiAggregators, k))} old(has(chain.CosiAggregators, k)) ==>
